@@ -66,16 +66,59 @@ type cfg struct {
 	Published string
 	// DiscURL: the discovery document is fetched from a custom URL (rp.WithCustomDiscoveryUrl) instead of the well-known one
 	DiscURL bool
+	// DiscKind: where that custom URL points ("" = opaque): an opaque path at the provider's host, the well-known path under
+	// another origin, the well-known path under another path of the issuer's host, or the issuer's own well-known location
+	// spelled out. Published may then be "discovery-url-prefix": the document names the location it is served from.
+	DiscKind string
 }
 
-const customDiscoveryURL = "https://op.example.com/custom/c01-discovery-document"
+const (
+	opaqueDiscoveryURL  = "https://op.example.com/custom/c01-discovery-document"
+	foreignOrigin       = "https://login.internal.example.net"
+	otherPathOfTheHost  = "https://op.example.com/realms/zz"
+	discOpaque          = "opaque"
+	discForeignOrigin   = "well-known-under-another-origin"
+	discOtherPath       = "well-known-under-another-path"
+	discOfIssuer        = "well-known-of-the-issuer"
+	pubDiscoveryURLSelf = "discovery-url-prefix"
+)
 
-func (c *cfg) mismatchingProvider() bool { return c.Published != "" && c.Published != "equal" }
+var discKinds = []string{discOpaque, discForeignOrigin, discOtherPath, discOfIssuer}
+
+// discoveryURL is the custom discovery URL the relying party is given.
+func (c *cfg) discoveryURL() string {
+	switch c.DiscKind {
+	case discForeignOrigin:
+		return foreignOrigin + oidc.DiscoveryEndpoint
+	case discOtherPath:
+		return otherPathOfTheHost + oidc.DiscoveryEndpoint
+	case discOfIssuer:
+		return strings.TrimSuffix(c.Issuer, "/") + oidc.DiscoveryEndpoint
+	}
+	return opaqueDiscoveryURL
+}
+
+// mismatchingProvider: the provider's document names another issuer than the configured one (or none).
+func (c *cfg) mismatchingProvider() bool {
+	if c.Published == "" || c.Published == "equal" {
+		return false
+	}
+	pub, ok := c.publishedIssuer()
+	return !ok || pub != c.Issuer
+}
 
 // publishedIssuer is the issuer member of the provider's discovery document (ok=false: the member is absent).
 func (c *cfg) publishedIssuer() (string, bool) {
-	if !c.mismatchingProvider() {
+	switch c.Published {
+	case "", "equal":
 		return c.Issuer, true
+	case pubDiscoveryURLSelf:
+		// the location the document is served from, minus the well-known suffix (what OIDC Discovery 4.3 would make of it)
+		u := c.discoveryURL()
+		if p, ok := strings.CutSuffix(u, oidc.DiscoveryEndpoint); ok {
+			return p, true
+		}
+		return u, true
 	}
 	return issVariant(c.Issuer, c.Published)
 }
@@ -119,6 +162,9 @@ func (c *cfg) describe() map[string]any {
 	if c.Route != "" && c.Route != "direct" {
 		pub, ok := c.publishedIssuer()
 		m["provider_publishes_issuer"], m["provider_publishes_issuer_member"], m["provider_issuer_kind"], m["custom_discovery_url"] = pub, ok, c.Published, c.DiscURL
+		if c.DiscURL {
+			m["custom_discovery_url"] = c.discoveryURL()
+		}
 	}
 	return m
 }
@@ -131,6 +177,9 @@ func (c *cfg) key() string {
 	via := c.Route
 	if c.mismatchingProvider() {
 		via += "/publishes-" + c.Published
+	}
+	if c.DiscURL && c.DiscKind != "" && c.DiscKind != discOpaque {
+		via += "/at-" + c.DiscKind
 	}
 	return fmt.Sprintf("o=%s/%v,mi=%s,ma=%s,n=%s,acr=%d,algs=%s,via=%s", c.Offset, c.OffsetOpt, c.MaxAgeIAT, c.MaxAge, n, len(c.ACR), c.AlgsKind, via)
 }
@@ -190,9 +239,9 @@ func (c *cfg) build(ks oidc.KeySet, jwks http.RoundTripper) (*rp.IDTokenVerifier
 		discAlgs = allAlgs // what the provider advertises is irrelevant unless the RP was asked to follow it
 	}
 	pub, pubOK := c.publishedIssuer()
-	ropts := []rp.Option{rp.WithHTTPClient(&http.Client{Transport: &discoveryRT{issuer: pub, noIssuer: !pubOK, algs: discAlgs, jwks: jwks}}), rp.WithVerifierOpts(opts...)}
+	ropts := []rp.Option{rp.WithHTTPClient(&http.Client{Transport: &discoveryRT{issuer: pub, noIssuer: !pubOK, algs: discAlgs, jwks: jwks, custom: c.discoveryURL()}}), rp.WithVerifierOpts(opts...)}
 	if c.DiscURL {
-		ropts = append(ropts, rp.WithCustomDiscoveryUrl(customDiscoveryURL))
+		ropts = append(ropts, rp.WithCustomDiscoveryUrl(c.discoveryURL()))
 	}
 	if fromDiscovery {
 		if c.RouteOrder == 0 {
@@ -215,11 +264,12 @@ type discoveryRT struct {
 	noIssuer bool // the document has no issuer member
 	algs     []string
 	jwks     http.RoundTripper
+	custom   string // the custom discovery URL
 }
 
 func (d *discoveryRT) RoundTrip(req *http.Request) (*http.Response, error) {
 	var body []byte
-	if strings.HasSuffix(req.URL.Path, oidc.DiscoveryEndpoint) || req.URL.String() == customDiscoveryURL {
+	if strings.HasSuffix(req.URL.Path, oidc.DiscoveryEndpoint) || req.URL.String() == d.custom {
 		doc := map[string]any{"issuer": d.issuer, "authorization_endpoint": "https://op.example.com/authorize", "token_endpoint": "https://op.example.com/token",
 			"jwks_uri": "https://op.example.com/c01-keys", "id_token_signing_alg_values_supported": d.algs, "response_types_supported": []string{"code"}, "subject_types_supported": []string{"public"}}
 		if d.noIssuer {
